@@ -415,7 +415,8 @@ def fs(E):
 
 def install_os(E):
     consts = {n: VInt(getattr(_real_os, n)) for n in
-              ('O_RDWR', 'O_CREAT', 'O_TRUNC', 'O_EXCL', 'O_RDONLY', 'O_WRONLY', 'O_APPEND')}
+              ('O_RDWR', 'O_CREAT', 'O_TRUNC', 'O_EXCL', 'O_RDONLY', 'O_WRONLY', 'O_APPEND', 'O_CLOEXEC', 'O_NOFOLLOW',
+               'O_NONBLOCK', 'O_SYNC', 'O_DSYNC', 'O_NOCTTY', 'O_DIRECTORY', 'SEEK_SET', 'SEEK_END') if hasattr(_real_os, n)}
 
     @stub('os.open')
     def _open(E, args, kw):
@@ -465,14 +466,30 @@ def install_os(E):
             E.effect('os.' + name, *args)
             if name in ('getpid',):
                 return VInt(E.fresh('pid', z3.IntSort()))
+            if name in ('path.abspath', 'path.realpath', 'path.normpath', 'path.expanduser', 'path.expandvars',
+                        'fspath', 'path.normcase'):
+                # SOME other spelling of the path: textual normalisation (`..` collapsed before symlinks are
+                # resolved, `~` expanded, ...) may name a different file than the OS would open for the original
+                return E.fresh_val('path_after_' + name.split('.')[-1])
             if name.startswith('path.'):
                 return E.fresh_bool('exists')
+            if name in ('fstat', 'stat', 'lstat'):
+                # read-only look at the file: link count (0 = unlinked meanwhile), size, mode -- whatever they are
+                nl = E.fresh('st_nlink', z3.IntSort())
+                E.assume(nl >= 0)
+                return Obj('stat_result', dict(st_nlink=VInt(nl), st_size=VInt(E.fresh('st_size', z3.IntSort())),
+                                               st_mode=VInt(E.fresh('st_mode', z3.IntSort())),
+                                               st_ino=VInt(E.fresh('st_ino', z3.IntSort())),
+                                               st_dev=VInt(E.fresh('st_dev', z3.IntSort()))))
             return NONE
         return VStub('os.' + name, fn)
     others = {n: _other(n) for n in ('unlink', 'remove', 'rename', 'replace', 'write', 'read', 'fsync',
                                      'getpid', 'mkdir', 'link', 'symlink', 'ftruncate', 'fdopen', 'dup', 'dup2',
-                                     'set_inheritable', 'get_inheritable', 'fork', 'kill', 'chmod', 'utime', 'stat')}
-    path_ns = VNamespace('os.path', {n: _other('path.' + n) for n in ('exists', 'isfile', 'getmtime')})
+                                     'set_inheritable', 'get_inheritable', 'fork', 'kill', 'chmod', 'utime', 'stat',
+                                     'fchmod', 'fchown', 'chown', 'fstat', 'lstat', 'truncate', 'lseek', 'fdatasync',
+                                     'umask', 'fspath', 'makedirs')}
+    path_ns = VNamespace('os.path', {n: _other('path.' + n) for n in (
+        'exists', 'isfile', 'getmtime', 'abspath', 'realpath', 'normpath', 'expanduser', 'expandvars', 'normcase')})
     ns = VNamespace('os', dict(open=_open, close=_close, path=path_ns, **others, **consts))
     E.builtins[('import', 'os')] = ns
 
